@@ -130,8 +130,12 @@ class _Generator(Generator):
         suffix = type_name[:-2]
         location = self.location_inner()
 
-        if type_.number_of_bits in [8, 16, 32, 64] and \
-                checker.minimum in [0, -128, -32768, -2147483648, -9223372036854775808]:
+        type_length = self.type_length(checker.minimum, checker.maximum)
+
+        # The fixed width helpers encode the offset from the smallest
+        # value of the C type.
+        if type_.number_of_bits == type_length and \
+                checker.minimum in [0, -(2 ** (type_length - 1))]:
             return (
                 [
                     'encoder_append_{}(encoder_p, src_p->{});'.format(
